@@ -205,6 +205,40 @@ rec_model!(BadEvolution { a: u8 });
 rec_model!(ReusedName { a: u32, x: u32 });
 rec_model!(ReusedNameOpt { a: u32, x: Option<u32> });
 
+// ---- twelve levels of records that all carry an evolution header (region / buffer stacks deeper than any generated nesting) ----
+
+macro_rules! nest_level {
+    ($name:ident, $next:ident) => {
+        #[derive(BinaryCodec)]
+        #[evolution(FieldAdded("tail", 0u32))]
+        pub struct $name {
+            pub head: u8,
+            pub kids: Vec<$next>,
+            pub tail: u32,
+        }
+        rec_model!($name { head: u8, kids: Vec<$next>, tail: u32 });
+    };
+}
+nest_level!(Nest0, Nest1);
+nest_level!(Nest1, Nest2);
+nest_level!(Nest2, Nest3);
+nest_level!(Nest3, Nest4);
+nest_level!(Nest4, Nest5);
+nest_level!(Nest5, Nest6);
+nest_level!(Nest6, Nest7);
+nest_level!(Nest7, Nest8);
+nest_level!(Nest8, Nest9);
+nest_level!(Nest9, Nest10);
+nest_level!(Nest10, Nest11);
+#[derive(BinaryCodec)]
+#[evolution(FieldAdded("tail", 0u32))]
+pub struct Nest11 {
+    pub head: u8,
+    pub tail: u32,
+}
+rec_model!(Nest11 { head: u8, tail: u32 });
+pub const NEST_LEVELS: usize = 12;
+
 
 // ---- the Scala golden data set (desert_macro/golden/dataset1.bin): same declarations as the repository's golden test ----
 
@@ -536,6 +570,21 @@ pub fn register(reg: &mut Registry) {
     );
     reg.add_hostile_only::<ReusedName>("ReusedName");
     reg.add_hostile_only::<ReusedNameOpt>("ReusedNameOpt");
+    // the nesting chain
+    refmodel::register("Nest0", Ty::Record(Arc::new(RecordSchema { name: "Nest0".into(), fields: vec![f::<u8>("head", false), f::<Vec<Nest1>>("kids", false), sbase::fs::<u32>("tail", false, false, Some(Val::U(0)))], steps: vec![Step::Added("tail".into())] })));
+    refmodel::register("Nest1", Ty::Record(Arc::new(RecordSchema { name: "Nest1".into(), fields: vec![f::<u8>("head", false), f::<Vec<Nest2>>("kids", false), sbase::fs::<u32>("tail", false, false, Some(Val::U(0)))], steps: vec![Step::Added("tail".into())] })));
+    refmodel::register("Nest2", Ty::Record(Arc::new(RecordSchema { name: "Nest2".into(), fields: vec![f::<u8>("head", false), f::<Vec<Nest3>>("kids", false), sbase::fs::<u32>("tail", false, false, Some(Val::U(0)))], steps: vec![Step::Added("tail".into())] })));
+    refmodel::register("Nest3", Ty::Record(Arc::new(RecordSchema { name: "Nest3".into(), fields: vec![f::<u8>("head", false), f::<Vec<Nest4>>("kids", false), sbase::fs::<u32>("tail", false, false, Some(Val::U(0)))], steps: vec![Step::Added("tail".into())] })));
+    refmodel::register("Nest4", Ty::Record(Arc::new(RecordSchema { name: "Nest4".into(), fields: vec![f::<u8>("head", false), f::<Vec<Nest5>>("kids", false), sbase::fs::<u32>("tail", false, false, Some(Val::U(0)))], steps: vec![Step::Added("tail".into())] })));
+    refmodel::register("Nest5", Ty::Record(Arc::new(RecordSchema { name: "Nest5".into(), fields: vec![f::<u8>("head", false), f::<Vec<Nest6>>("kids", false), sbase::fs::<u32>("tail", false, false, Some(Val::U(0)))], steps: vec![Step::Added("tail".into())] })));
+    refmodel::register("Nest6", Ty::Record(Arc::new(RecordSchema { name: "Nest6".into(), fields: vec![f::<u8>("head", false), f::<Vec<Nest7>>("kids", false), sbase::fs::<u32>("tail", false, false, Some(Val::U(0)))], steps: vec![Step::Added("tail".into())] })));
+    refmodel::register("Nest7", Ty::Record(Arc::new(RecordSchema { name: "Nest7".into(), fields: vec![f::<u8>("head", false), f::<Vec<Nest8>>("kids", false), sbase::fs::<u32>("tail", false, false, Some(Val::U(0)))], steps: vec![Step::Added("tail".into())] })));
+    refmodel::register("Nest8", Ty::Record(Arc::new(RecordSchema { name: "Nest8".into(), fields: vec![f::<u8>("head", false), f::<Vec<Nest9>>("kids", false), sbase::fs::<u32>("tail", false, false, Some(Val::U(0)))], steps: vec![Step::Added("tail".into())] })));
+    refmodel::register("Nest9", Ty::Record(Arc::new(RecordSchema { name: "Nest9".into(), fields: vec![f::<u8>("head", false), f::<Vec<Nest10>>("kids", false), sbase::fs::<u32>("tail", false, false, Some(Val::U(0)))], steps: vec![Step::Added("tail".into())] })));
+    refmodel::register("Nest10", Ty::Record(Arc::new(RecordSchema { name: "Nest10".into(), fields: vec![f::<u8>("head", false), f::<Vec<Nest11>>("kids", false), sbase::fs::<u32>("tail", false, false, Some(Val::U(0)))], steps: vec![Step::Added("tail".into())] })));
+    refmodel::register("Nest11", Ty::Record(Arc::new(RecordSchema { name: "Nest11".into(), fields: vec![f::<u8>("head", false), sbase::fs::<u32>("tail", false, false, Some(Val::U(0)))], steps: vec![Step::Added("tail".into())] })));
+    reg.add_tagged::<Nest0>("Nest0", &["special:deep_nesting"]);
+    reg.add_tagged::<Nest8>("Nest8", &["special:deep_nesting"]);
     refmodel::register("BigEnum", Ty::Enum(Arc::new(schema_bigenum())));
     refmodel::register("BigEnumSorted", Ty::Enum(Arc::new(schema_bigenumsorted())));
     reg.add_tagged::<BigEnum>("BigEnum", &["special:limits", "enum"]);
